@@ -330,8 +330,13 @@ def finish(res, spec, t0, workdir):
               assumptions=list(getattr(spec, "ASSUMPTIONS", [])), wall_s=round(time.time() - t0, 1),
               violations=len(bad), verdict=verdict, tree_key=vbuild.tree_key(),
               harness_errors=res.herrs[:20], inconclusive=res.inconclusive[:20])
-    os.makedirs(os.path.join(VERIF, "evidence"), exist_ok=True)
-    with open(os.path.join(VERIF, "evidence", pid + ".json"), "w") as f:
+    # evidence/ is only ever written by a run against /repo itself; a run against a scratch tree
+    # (VERIF_REPO set: seeded changes, pre-fix trees) writes to work/evidence_scratch instead
+    evdir = os.environ.get("VERIF_EVIDENCE_DIR") or (
+        os.path.join(VERIF, "evidence") if os.path.realpath(vbuild.REPO) == "/repo"
+        else os.path.join(VERIF, "work", "evidence_scratch"))
+    os.makedirs(evdir, exist_ok=True)
+    with open(os.path.join(evdir, pid + ".json"), "w") as f:
         json.dump(ev, f, indent=1, default=str)
     print("%s tier=%s seed=%s verdict=%s evaluations=%d distinct_nontrivial=%d classes=%d wall=%.0fs" %
           (pid, res.tier, res.seed, verdict, res.evals, res.distinct, len(res.classes), time.time() - t0))
